@@ -652,12 +652,10 @@ def worklist_filter(rep, prog):
     for c in walk(fn["body"]):
         if c.get("k") == "CXXMemberCallExpr" and c.get("callee", "").endswith("::insert") and render(call_obj(c)) == wl[0]["name"]:
             lam = fi.in_lambda(c)
-            if lam is None:
-                continue
             ev = render(call_args(c)[0]).replace(" ", "")
             conj = []
             for p_, slot, ch in fi.ancestors(c):
-                if p_ is lam:
+                if lam is not None and p_ is lam:
                     break
                 if p_.get("k") == "IfStmt" and slot == "then":
                     conj += _conjuncts(p_["cond"])
